@@ -7,7 +7,7 @@ namespace Plush
 abbrev Bytes := List UInt8
 
 /-- ASCII/UTF-8 literal to bytes (for readable definitions and witnesses). -/
-def b (s : String) : Bytes := s.toUTF8.toList
+def b (s : String) : Bytes := s.toUTF8.data.toList
 
 def hexDigit (n : UInt8) : Char :=
   if n < 10 then Char.ofNat (48 + n.toNat) else Char.ofNat (87 + n.toNat)
